@@ -338,6 +338,12 @@ impl Enc<'_> {
             }
             data_offset_candidates.push(self.phys());
         }
+        // the one defined bit of the flags byte of a data packet: "compressor restart". Every packet of
+        // this format starts afresh (there is no state carried between packets), a producer may say so.
+        let restart = if self.k.packets { self.ch.choose(&format!("cloud{ci}-restart-flag"), 3) } else { 0 };
+        if restart > 0 {
+            self.notes.push(format!("cloud {ci}: compressor restart flag set on {} data packet", if restart == 1 { "every" } else { "every second" }));
+        }
         for j in 0..npk {
             let nrec = c.proto.len();
             let mut sizes = Vec::new();
@@ -352,7 +358,7 @@ impl Enc<'_> {
             let len = (raw + 3) / 4 * 4;
             assert!(len <= 65536, "packet too large for this encoder");
             self.log.push(1);
-            self.log.push(0);
+            self.log.push(if restart == 1 || (restart == 2 && j % 2 == 0) { 1 } else { 0 });
             self.log.extend_from_slice(&le16(len - 1));
             self.log.extend_from_slice(&le16(nrec));
             for s in &sizes {
